@@ -55,6 +55,15 @@ func LoadKF() ([]KFEntry, error) {
 	return f.Findings, nil
 }
 
+func (e *KFEntry) tagsMatch(tags map[string]bool) bool {
+	for _, t := range e.Tags {
+		if !tags[t] {
+			return false
+		}
+	}
+	return true
+}
+
 func (e *KFEntry) matches(prop, kind string, tags map[string]bool) bool {
 	if e.Status != "open" || e.Property != prop {
 		return false
@@ -127,6 +136,7 @@ type Checker struct {
 	Traces      int64
 	seenNT      map[string]bool
 	triage      map[string]int
+	kfClass     map[string]int64
 	triageEx    map[string]string
 	maxPrint    int
 	replayDir   string
@@ -134,7 +144,7 @@ type Checker struct {
 
 func NewChecker(prop, tier, level string) *Checker {
 	c := &Checker{Prop: prop, Tier: tier, Level: level, Start: time.Now(), outcomes: map[string]int64{},
-		kfStats: map[string]*kfStat{}, maxSamples: 6, Extra: map[string]any{}, seenNT: map[string]bool{}}
+		kfStats: map[string]*kfStat{}, kfClass: map[string]int64{}, maxSamples: 6, Extra: map[string]any{}, seenNT: map[string]bool{}}
 	fmt.Sscan(os.Getenv("VERIF_SEED"), &c.Seed)
 	kf, err := LoadKF()
 	if err != nil {
@@ -206,12 +216,19 @@ func (c *Checker) Record(info CaseInfo, kind string, v *Violation) {
 	if info.Sample != nil && len(c.samples) < c.maxSamples && (len(c.samples) == 0 || info.NonTrivial) {
 		c.samples = append(c.samples, info.Sample)
 	}
-	if v == nil {
-		return
-	}
 	tags := map[string]bool{}
 	for _, t := range info.Tags {
 		tags[t] = true
+	}
+	// tightness bookkeeping: how many explored cases fall into the tag class of each open entry
+	for i := range c.kf {
+		e := &c.kf[i]
+		if e.Status == "open" && e.Property == c.Prop && e.tagsMatch(tags) {
+			c.kfClass[e.ID]++
+		}
+	}
+	if v == nil {
+		return
 	}
 	for i := range c.kf {
 		e := &c.kf[i]
@@ -341,7 +358,10 @@ func (c *Checker) Finish() int {
 	for _, id := range ids {
 		st := c.kfStats[id]
 		fmt.Printf("KNOWN-FINDING: property=%s %s [%s] (%d cases; e.g. %s)\n", c.Prop, st.entry.What, id, st.failing, truncate(st.example, 200))
-		kfOut = append(kfOut, map[string]any{"id": id, "failing_cases": st.failing, "example": truncate(st.example, 300)})
+		kfOut = append(kfOut, map[string]any{"id": id, "failing_cases": st.failing, "cases_in_tag_class": c.kfClass[id], "example": truncate(st.example, 300)})
+		if c.kfClass[id] > st.failing {
+			fmt.Printf("  note: %s: %d of the %d explored cases in its tag class fail (the others hold; the entry suppresses only failures of kinds %v)\n", id, st.failing, c.kfClass[id], st.entry.Kinds)
+		}
 	}
 	if c.triage != nil {
 		var keys []string
